@@ -12,6 +12,6 @@ PROP = {
                 {"name": "c18.fill", "join": True}],
     "modules": ["GbVerif.Proofs.SerialMono", "GbVerif.Proofs.Machine", "GbVerif.Proofs.SysFrame", "GbVerif.Proofs.SysBatch", "GbVerif.Proofs.SysTotal", "GbVerif.Proofs.InterpFrame", "GbVerif.Model.Sys", "GbVerif.Model.Bus", "GbVerif.Spec.Serial", "GbVerif.Proofs.NatBits", "GbVerif.Proofs.Enum"],
     "stdout_writers_allowed": ["src/devices/serial.rs"],
-    "rule": "300 (thorough 20000) programs of 1..24 serial register writes with values biased to bit-7 edges; non-trivial = at least one byte was due on stdout",
+    "rule": "one write in eight goes to another device (an OAM DMA start, BGP, TMA, SCY): the serial port must not care; 300 (thorough 20000) programs of 1..24 serial register writes with values biased to bit-7 edges; non-trivial = at least one byte was due on stdout",
     "assumptions": ["messages printed by main.rs before a ROM runs (load diagnostics) are outside 'while a ROM is running'"],
 }
